@@ -74,6 +74,10 @@ def gen_cases(rng, tier):
             out.append({"kind": "ctx", "t": t, "c": tf.gen_ctx(rng)})
         else:
             out.append({"kind": "ctx", "t": g.malformed(d), "c": dict(tf.STR_CTX)})
+        # two cases in five are written the way users write them (operators and Term methods) rather than with the
+        # constructors: both must render the model's text
+        if rng.random() < 0.4:
+            out[-1]["form"] = "ops"
     # aggregate FILTER(WHERE ...): several criteria (one call or chained calls) are folded with Criterion.all
     for i in range(n // 10):
         calls = [[g0.boolean(rng.choice([0, 1, 2])) for _ in range(rng.choice([1, 1, 2, 3]))] for _ in range(rng.choice([1, 1, 2]))]
@@ -122,18 +126,23 @@ def corpus():
     r_ = ["basic", "ne", C_, ["vali", 0, None], None]
     aggs = [{"kind": "agg", "func": "SUM", "t": A, "filters": [[["cplx", "or", p_, q_, None], r_]]},
             {"kind": "agg", "func": "COUNT", "t": B_, "filters": [[p_], [["cplx", "or", q_, r_, None]]]}]
-    return [{"kind": "ctx", "t": t, "c": sc} for t in ws] + aggs
+    # the same trees written with Python operators / Term methods; plus NOT over IN in every combination (an operator
+    # override that folds `~` into the IN test loses a negation: seeded/C02-10)
+    in12 = lambda neg: ["in", A, ["tuple", [["vali", 1, None], ["vali", 2, None]], None], neg, None]   # noqa: E731
+    ops = ws + [["not", in12(False), None], ["not", in12(True), None], ["not", ["not", in12(False), None], None],
+                ["not", ["isnull", A, None], None], ["not", ["between", A, B_, C_, None], None]]
+    return ([{"kind": "ctx", "t": t, "c": sc} for t in ws] + [{"kind": "ctx", "t": t, "c": sc, "form": "ops"} for t in ops] + aggs)
 
 
 # ----------------------------------------------------------------------------------------------
 # implementation
 # ----------------------------------------------------------------------------------------------
-def _pos_text(t, pos):
+def _pos_text(t, pos, ops=False):
     """Render the expression inside a real statement and cut the fragment out."""
     from pypika import Query, Table, Field
     from pypika.terms import Function, Case
     tt, u = Table("t"), Table("u")
-    e = tf.build(t)
+    e = tf.build(t, ops=ops)
     if pos == "select":
         s = str(Query.from_(tt).select(e))
         m = re.match(r'^SELECT (.*) FROM "t"$', s, re.S)
@@ -179,10 +188,11 @@ def run_impl(case):
         if case["kind"] == "agg":
             text = _agg_text(case)
             return {"text": text, "judge": judge_agg(case, text)}
+        ops = case.get("form") == "ops"
         if case["kind"] == "ctx":
-            text = tf.render_impl(case["t"], case["c"])
+            text = tf.render_impl(case["t"], case["c"], ops=ops)
         else:
-            text = _pos_text(case["t"], case["pos"])
+            text = _pos_text(case["t"], case["pos"], ops=ops)
     except Exception as e:  # noqa
         text = "!" + type(e).__name__
     out = {"text": text}
@@ -343,9 +353,10 @@ def has_comment_intro(text):
     return False
 
 
-def sem_differs(sh):
-    """True if pypika's rendering of the shadow tree and the explicit text disagree on some row (or pypika's text fails)."""
-    ptxt = tf.render_impl(sh, tf.STR_CTX)
+def sem_differs(sh, ops=False):
+    """True if pypika's rendering of the shadow tree (built with the constructors, or with operators and Term methods
+    when `ops`) and the explicit text disagree on some row (or pypika's text fails)."""
+    ptxt = tf.render_impl(sh, tf.STR_CTX, ops=ops)
     if ptxt.startswith("!"):
         raise NotJudged("render")
     try:
@@ -476,12 +487,12 @@ def classify(n):
     return "other"
 
 
-def minimal_failing(sh):
+def minimal_failing(sh, ops=False):
     """deepest node whose own rendering disagrees while all its children agree"""
     for c in children(sh):
         try:
-            if sem_differs(c) or has_comment_intro(tf.render_impl(c, tf.STR_CTX)):
-                return minimal_failing(c)
+            if sem_differs(c, ops) or has_comment_intro(tf.render_impl(c, tf.STR_CTX, ops=ops)):
+                return minimal_failing(c, ops)
         except NotJudged:
             continue
     return sh
@@ -500,6 +511,7 @@ def _raw_leaf_has_intro(t):
 
 def judge(case, text):
     t = case["t"]
+    ops = case.get("form") == "ops"
     try:
         star = has_star_operand(t)
     except Exception:      # shapes outside the judged language (sub-query containers ...): judged below or not at all
@@ -515,13 +527,13 @@ def judge(case, text):
     except NotJudged as e:
         return {"verdict": "not-judged", "why": str(e)}
     try:
-        d = sem_differs(sh)
+        d = sem_differs(sh, ops)
     except NotJudged as e:
         return {"verdict": "not-judged", "why": str(e)}
-    ci = has_comment_intro(tf.render_impl(sh, tf.STR_CTX))
+    ci = has_comment_intro(tf.render_impl(sh, tf.STR_CTX, ops=ops))
     if d or ci:
-        m = minimal_failing(sh)
-        return {"verdict": "differs", "detail": d or "comment introducer in %r" % tf.render_impl(sh, tf.STR_CTX),
+        m = minimal_failing(sh, ops)
+        return {"verdict": "differs", "detail": d or "comment introducer in %r" % tf.render_impl(sh, tf.STR_CTX, ops=ops),
                 "class": classify(m), "node": [label(m)] + [label(c) for c in children(m)], "min": m}
     return {"verdict": "same"}
 
@@ -625,8 +637,12 @@ def targeted_search(rng, broken, mism_cases):
         while stack:
             x = stack.pop()
             out.append({"kind": "ctx", "t": x, "c": sc})
+            if c.get("form"):
+                out[-1]["form"] = c["form"]
             stack.extend(children(x) if x[0] in ("neg", "arith", "basic", "cplx", "in", "between", "case", "func", "not", "isnull", "notnull") else [])
     g = _gen(rng, "quick")
     for _ in range(1500):
         out.append({"kind": "ctx", "t": g.boolean(3) if rng.random() < 0.5 else g.num(3), "c": sc})
+        if rng.random() < 0.5:
+            out[-1]["form"] = "ops"
     return out
